@@ -471,6 +471,11 @@ func c04Vector(c *Ctx, raw stdjson.RawMessage) {
 		c.Case()
 		c04Run(c, thriftCase{Layout: v.Layout, Vals: v.Vals, Salt: salt, Hist: c04Histories[r.intn(len(c04Histories))]})
 	}
+	// lifting: byte sequences above the readers' 4096-byte threshold, several in one value, later ones shorter
+	if hasBinary(v.Layout) {
+		c.Case()
+		c04Run(c, thriftCase{Layout: v.Layout, Vals: v.Vals, Salt: tBigSalt + r.intn(26), Hist: c04Histories[r.intn(len(c04Histories))]})
+	}
 	// lifting: lists of 14 / 15 / 16 elements (compact short form boundary) and a few hundred
 	for _, n := range []int{14, 15, 16, 300 + r.intn(50)} {
 		vals, did := tStretch(v.Layout, v.Vals, n)
@@ -480,6 +485,15 @@ func c04Vector(c *Ctx, raw stdjson.RawMessage) {
 		}
 	}
 	c.Sample(map[string]any{"layout": v.Layout, "vals": v.Vals})
+}
+
+func hasBinary(layout []tField) bool {
+	for _, f := range layout {
+		if f.Ty == "BINARY" || f.E == "BINARY" || f.K == "BINARY" {
+			return true
+		}
+	}
+	return false
 }
 
 func tStretch(layout []tField, vals []tVal, n int) ([]tVal, bool) {
